@@ -1,0 +1,18 @@
+//go:build verif
+
+// Hooks for the verification harness in /verif. Compiled only with `-tags verif`;
+// thin exported wrappers around unexported identifiers, no behaviour of their own.
+package apk
+
+// VerifVersionFields exposes the parsed fields of a Version.
+func VerifVersionFields(v Version) (numbers []int, letter rune, pre, preNum, post, postNum, rev int) {
+	return v.numbers, v.letter, int(v.preSuffix), v.preSuffixNumber, int(v.postSuffix), v.postSuffixNumber, v.revision
+}
+
+// VerifIncludesVersion calls includesVersion.
+func VerifIncludesVersion(actual, required Version) bool { return includesVersion(actual, required) }
+
+// VerifConstraintFields exposes the fields of a ParsedConstraint.
+func VerifConstraintFields(p ParsedConstraint) (name, version string, dep int, pin string) {
+	return p.Name, p.version, int(p.dep), p.pin
+}
